@@ -13,9 +13,12 @@
 //!   including glyphs past numberOfHMetrics).
 
 use crate::engine::util::{pick, truncate};
+use super::c18;
 use crate::engine::{fixtures, CaseResult, Ctx, Fail, Property, Rec};
 use crate::fontgen::basic::SimpleGlyph;
 use crate::fontgen::sfnt::{find_table, parse_directory};
+use crate::fontgen::type2::{diff_commands, Cmd};
+use crate::refmodel::type2::{Deviations, T2Font};
 use crate::fontgen::ttgen::cffgen::{self, cff_model, CffModel};
 use crate::fontgen::ttgen::{tt_model, woff1_wrap, ArgsModel, GlyphModel, TransformModel, TtModel};
 use crate::refmodel::glyf_lite::{self as gl, Args, Component, GlyphLite, Transform, TtTables};
@@ -587,7 +590,144 @@ fn tables_of_sfnt(out: &[u8]) -> Result<TtTables, Fail> {
 }
 
 // ------------------------------------------------------------------------------------------
-// CFF oracle (allsorts' own outline visitor on both sides)
+// CFF oracle: allsorts' own outline visitor on both sides, the independent Type 2 interpreter
+// (refmodel::type2) on both sides, and - for generated fonts - the model path
+
+/// What a generated source font knows about its glyphs.
+struct CffHooks<'a> {
+    /// (base glyph, accent glyph) of a seac glyph
+    seac: &'a dyn Fn(u16) -> Option<(u16, u16)>,
+    /// the path the model assigns to source glyph g (forward construction)
+    expect: &'a dyn Fn(u16) -> Option<Vec<Cmd>>,
+}
+
+fn no_hooks() -> CffHooks<'static> {
+    CffHooks {
+        seac: &|_| None,
+        expect: &|_| None,
+    }
+}
+
+/// Operand-stack depths of a CFF2 glyph program (subroutines followed): the largest number of
+/// operands any path/hint operator finds on the stack, and the number the *first*
+/// stack-clearing operator finds. CFF2 allows 513 operands, Type 2 in CFF only 48 - and a CFF
+/// charstring may need one more in front of its first operator (the width).
+fn cff2_operand_depths(t2: &T2Font<'_>, gid: usize) -> Result<(usize, usize), String> {
+    struct Scan<'a, 'b> {
+        t2: &'a T2Font<'b>,
+        lsubrs: &'a [&'b [u8]],
+        stack: Vec<f64>,
+        max: usize,
+        first: Option<usize>,
+        stems: usize,
+        vsindex: usize,
+        steps: u32,
+    }
+    impl<'a, 'b> Scan<'a, 'b> {
+        fn op(&mut self) {
+            self.max = self.max.max(self.stack.len());
+            self.first.get_or_insert(self.stack.len());
+            self.stack.clear();
+        }
+        fn run(&mut self, cs: &[u8], depth: u32) -> Result<(), String> {
+            if depth > 10 {
+                return Err("nesting".into());
+            }
+            let mut i = 0;
+            while i < cs.len() {
+                self.steps += 1;
+                if self.steps > 200_000 {
+                    return Err("too long".into());
+                }
+                let b0 = cs[i];
+                i += 1;
+                match b0 {
+                    28 => {
+                        let s = cs.get(i..i + 2).ok_or("short")?;
+                        self.stack.push(i16::from_be_bytes([s[0], s[1]]) as f64);
+                        i += 2;
+                    }
+                    32..=246 => self.stack.push(b0 as f64 - 139.0),
+                    247..=250 => {
+                        let b1 = *cs.get(i).ok_or("short")? as f64;
+                        self.stack.push((b0 as f64 - 247.0) * 256.0 + b1 + 108.0);
+                        i += 1;
+                    }
+                    251..=254 => {
+                        let b1 = *cs.get(i).ok_or("short")? as f64;
+                        self.stack.push(-(b0 as f64 - 251.0) * 256.0 - b1 - 108.0);
+                        i += 1;
+                    }
+                    255 => {
+                        let s = cs.get(i..i + 4).ok_or("short")?;
+                        self.stack.push(i32::from_be_bytes([s[0], s[1], s[2], s[3]]) as f64 / 65536.0);
+                        i += 4;
+                    }
+                    10 | 29 => {
+                        let subrs: &[&[u8]] = if b0 == 10 { self.lsubrs } else { &self.t2.gsubrs };
+                        let bias = if subrs.len() < 1240 {
+                            107
+                        } else if subrs.len() < 33900 {
+                            1131
+                        } else {
+                            32768
+                        };
+                        let n = self.stack.pop().ok_or("empty stack")? as i64 + bias;
+                        let body = *subrs.get(usize::try_from(n).map_err(|_| "subr index")?).ok_or("subr index")?;
+                        self.run(body, depth + 1)?;
+                    }
+                    15 => {
+                        self.vsindex = self.stack.pop().ok_or("empty stack")? as usize;
+                    }
+                    16 => {
+                        let n = self.stack.pop().ok_or("empty stack")? as usize;
+                        let k = self.t2.vstore.as_ref().and_then(|v| v.data.get(self.vsindex)).map(|d| d.len()).ok_or("blend without regions")?;
+                        let drop = n.checked_mul(k).ok_or("blend")?;
+                        if self.stack.len() < drop + n {
+                            return Err("blend underflow".into());
+                        }
+                        let keep = self.stack.len() - drop;
+                        self.stack.truncate(keep);
+                    }
+                    1 | 3 | 18 | 23 => {
+                        self.stems += self.stack.len() / 2;
+                        self.op();
+                    }
+                    19 | 20 => {
+                        self.stems += self.stack.len() / 2;
+                        self.op();
+                        i += (self.stems + 7) / 8;
+                    }
+                    12 => {
+                        i += 1;
+                        self.op();
+                    }
+                    _ => self.op(),
+                }
+            }
+            Ok(())
+        }
+    }
+    let cs = *t2.charstrings.get(gid).ok_or("glyph id")?;
+    let fd = t2.fds.get(t2.fd_of(gid)).ok_or("font dict")?;
+    let mut s = Scan {
+        t2,
+        lsubrs: &fd.lsubrs,
+        stack: Vec::new(),
+        max: 0,
+        first: None,
+        stems: 0,
+        vsindex: fd.vsindex,
+        steps: 0,
+    };
+    s.run(cs, 0)?;
+    Ok((s.max, s.first.unwrap_or(0)))
+}
+
+fn render_cmds(c: &[Cmd]) -> String {
+    truncate(&format!("{:?}", c), 600)
+}
+
 
 #[derive(Clone, Debug, PartialEq, Eq)]
 enum Seg {
@@ -705,7 +845,8 @@ fn cff_out_paths(cff_bytes: &[u8], n: usize) -> Result<(Paths, CffOutInfo), Fail
     Ok((paths, info))
 }
 
-fn check_cff(src: &Source, list: &[u16], out: &[u8], api: &Api, seac: &dyn Fn(u16) -> Option<(u16, u16)>, rec: &mut Rec) -> Result<usize, Fail> {
+fn check_cff(src: &Source, list: &[u16], out: &[u8], api: &Api, hooks: &CffHooks<'_>, rec: &mut Rec) -> Result<usize, Fail> {
+    let seac = hooks.seac;
     // source paths
     let mut src_cid = false;
     let mut fds: BTreeSet<u8> = BTreeSet::new();
@@ -782,10 +923,29 @@ fn check_cff(src: &Source, list: &[u16], out: &[u8], api: &Api, seac: &dyn Fn(u1
     // without meaning. A failure is attributed to it only for a seac glyph in exactly that
     // situation; it is reported after all other glyphs have been compared.
     let mut seac_failure: Option<Fail> = None;
-    let seac_unsupported = |g: u16| match seac(g) {
+    let seac_unsupported_only = |g: u16| match seac(g) {
         Some((b, a)) => info.cid || !list.contains(&b) || !list.contains(&a),
         None => false,
     };
+    // Second known limitation: the CFF2->CFF conversion copies operand lists verbatim; CFF2 allows
+    // 513 operands per operator, a Type 2 charstring in CFF 48 (including the width the
+    // conversion puts in front of the first operator). Input class: CFF2 source glyphs in which an
+    // operator finds more than 48 operands (or the first one exactly 48).
+    let src_t2_for_depths = if src.kind == Kind::Cff2 { T2Font::parse_cff2(&src.cff).ok() } else { None };
+    let over_48 = |g: u16| match &src_t2_for_depths {
+        Some(t) => matches!(cff2_operand_depths(t, g as usize), Ok((max, first)) if max > 48 || first >= 48),
+        None => false,
+    };
+    let known_sig = |g: u16| -> Option<&'static str> {
+        if seac_unsupported_only(g) {
+            Some("cff-seac-components-not-retained")
+        } else if over_48(g) {
+            Some("cff2-operand-list-over-48-not-split")
+        } else {
+            None
+        }
+    };
+    let seac_unsupported = |g: u16| known_sig(g).is_some();
     for (k, g) in list.iter().enumerate() {
         match (&src_paths[k], &out_paths[k]) {
             (Ok(a), Ok(b)) => {
@@ -794,7 +954,7 @@ fn check_cff(src: &Source, list: &[u16], out: &[u8], api: &Api, seac: &dyn Fn(u1
                 }
                 if a != b {
                     let f = fail(
-                        if seac_unsupported(*g) { "cff-seac-components-not-retained" } else { "cff-outline-differs" },
+                        known_sig(*g).unwrap_or("cff-outline-differs"),
                         format!("new glyph {} (source glyph {}): source path {} / subset path {}", k, g, render(a), render(b)),
                     );
                     if seac_unsupported(*g) {
@@ -810,7 +970,7 @@ fn check_cff(src: &Source, list: &[u16], out: &[u8], api: &Api, seac: &dyn Fn(u1
             }
             (Ok(a), Err(e)) => {
                 let f = fail(
-                    if seac_unsupported(*g) { "cff-seac-components-not-retained" } else { "cff-outline-lost" },
+                    known_sig(*g).unwrap_or("cff-outline-lost"),
                     format!("new glyph {} (source glyph {}) cannot be drawn: {}; source path {}", k, g, e, render(a)),
                 );
                 if seac_unsupported(*g) {
@@ -819,6 +979,76 @@ fn check_cff(src: &Source, list: &[u16], out: &[u8], api: &Api, seac: &dyn Fn(u1
                     return Err(f);
                 }
             }
+        }
+    }
+
+    // the same comparison through the independent Type 2 interpreter (refmodel::type2) on the
+    // bytes of both fonts: a change that breaks both allsorts visits alike is still seen
+    let src_t2 = match src.kind {
+        Kind::Cff => T2Font::parse_cff(&src.cff),
+        _ => T2Font::parse_cff2(&src.cff),
+    };
+    match src_t2 {
+        Err(_) => rec.class("t2:source-unreadable"),
+        Ok(src_t2) => {
+            let out_t2 = T2Font::parse_cff(&cff_bytes)
+                .map_err(|e| fail("cff-output-unreadable", format!("independent Type 2 reader on the subset's CFF table: {}", e)))?;
+            // a variable CFF2 source is converted at its default location
+            let zeros: Option<Vec<f64>> = src_t2.vstore.as_ref().map(|v| vec![0.0; v.axis_count]);
+            let tol = if src.kind == Kind::Cff2 { 1e-9 } else { 0.0 };
+            let mut compared = 0;
+            let mut with_model = false;
+            for (k, g) in list.iter().enumerate() {
+                // a subset glyph allsorts itself cannot draw has been dealt with above (failure or
+                // known finding); the reference interpreter has no nesting limit for seac, and a
+                // subset whose seac codes resolve to the glyph itself would recurse without end
+                if out_paths[k].is_err() || src_paths[k].is_err() {
+                    continue;
+                }
+                let want = match src_t2.outline(*g as usize, zeros.as_deref(), &Deviations::default()) {
+                    Ok(w) => w,
+                    Err(_) => {
+                        rec.class("t2:source-glyph-uninterpretable");
+                        continue;
+                    }
+                };
+                let attributed = seac_unsupported(*g);
+                let f = match out_t2.outline(k, None, &Deviations::default()) {
+                    Err(e) => Some(fail(
+                        known_sig(*g).unwrap_or("cff-t2-outline-lost"),
+                        format!("new glyph {} (source glyph {}): the independent interpreter cannot draw the subset glyph: {}; source path {}", k, g, e, render_cmds(&want)),
+                    )),
+                    Ok(got) => {
+                        let mut f = diff_commands(&got, &want, tol).map(|d| {
+                            fail(
+                                known_sig(*g).unwrap_or("cff-t2-outline-differs"),
+                                format!("new glyph {} (source glyph {}), independent interpreter: {}; source path {} / subset path {}", k, g, d, render_cmds(&want), render_cmds(&got)),
+                            )
+                        });
+                        if f.is_none() {
+                            if let Some(model) = (hooks.expect)(*g) {
+                                f = diff_commands(&got, &model, 1e-6).map(|d| {
+                                    fail(
+                                        known_sig(*g).unwrap_or("cff-outline-differs-from-model"),
+                                        format!("new glyph {} (model glyph {}): {}; model path {} / subset path {}", k, g, d, render_cmds(&model), render_cmds(&got)),
+                                    )
+                                });
+                                with_model = true;
+                            }
+                        }
+                        f
+                    }
+                };
+                match f {
+                    Some(f) if attributed => {
+                        seac_failure.get_or_insert(f);
+                    }
+                    Some(f) => return Err(f),
+                    None => compared += 1,
+                }
+            }
+            rec.class_if(compared > 0, "t2:independent-interpreter-compared");
+            rec.class_if(with_model, "t2:compared-with-model-path");
         }
     }
 
@@ -954,7 +1184,7 @@ fn classify_common(rec: &mut Rec, src: &Source, list: &[u16], api: &Api, spec: &
 }
 
 /// Shared tail of both sections: run the subsetter on `font_bytes` and compare with `src`.
-fn subset_and_compare(font_bytes: &[u8], src: &Source, list: &[u16], api: &Api, spec: &ListSpec, seac: &dyn Fn(u16) -> Option<(u16, u16)>, rec: &mut Rec) -> Result<Option<(Vec<u16>, Vec<u8>)>, Fail> {
+fn subset_and_compare(font_bytes: &[u8], src: &Source, list: &[u16], api: &Api, spec: &ListSpec, hooks: &CffHooks<'_>, rec: &mut Rec) -> Result<Option<(Vec<u16>, Vec<u8>)>, Fail> {
     classify_common(rec, src, list, api, spec);
     rec.class(match container_of(font_bytes) {
         "woff" => "container:woff",
@@ -991,7 +1221,7 @@ fn subset_and_compare(font_bytes: &[u8], src: &Source, list: &[u16], api: &Api, 
                 Err(f) => Err(f),
             }
         }
-        Kind::Cff | Kind::Cff2 => match check_cff(src, list, &out, api, seac, rec) {
+        Kind::Cff | Kind::Cff2 => match check_cff(src, list, &out, api, hooks, rec) {
             Ok(nonblank) => {
                 rec.class_if(list.len() > 255, "out:glyphs>255");
                 rec.set_nontrivial(list.len() >= 2 && nonblank >= 1);
@@ -1038,7 +1268,7 @@ fn check_fixture(c: &FixtureCase, thorough: bool, rec: &mut Rec) -> CaseResult {
     rec.hash_bytes(format!("{:?}{:?}", c.api, list).as_bytes());
     rec.sample(|| format!("{} ({}) api={:?} list={}", src.name, container_of(font_bytes), c.api, truncate(&format!("{:?}", list), 200)));
     rec.artefact("glyph-ids", format!("{} {:?}", src.name, list).as_bytes());
-    subset_and_compare(font_bytes, src, &list, &c.api, &c.list, &|_| None, rec).map(|_| ())
+    subset_and_compare(font_bytes, src, &list, &c.api, &c.list, &no_hooks(), rec).map(|_| ())
 }
 
 fn model_to_lite(g: &GlyphModel) -> GlyphLite {
@@ -1143,7 +1373,7 @@ fn check_generated(c: &GenCase, rec: &mut Rec) -> CaseResult {
         refs.iter().any(|(c, ps)| in_list.contains(c) && ps.iter().any(|p| in_list.contains(p) && list.iter().position(|x| x == c) > list.iter().position(|x| x == p))),
         "gen:component-listed-after-parent",
     );
-    let mapping = subset_and_compare(font_bytes, &src, &list, &c.api, &c.list, &|_| None, rec)?;
+    let mapping = subset_and_compare(font_bytes, &src, &list, &c.api, &c.list, &no_hooks(), rec)?;
     if let Some((new_to_old, out)) = mapping {
         // and the subset against the model itself (not only old-vs-new through one reader)
         let dst = tables_of_sfnt(&out)?;
@@ -1259,7 +1489,316 @@ fn check_generated_cff(c: &GenCffCase, rec: &mut Rec) -> CaseResult {
     }
     rec.class_if(list.iter().any(|g| m.glyphs[*g as usize].seac.is_some()), "gencff:seac-glyph-retained");
     let seac = |g: u16| m.glyphs.get(g as usize).and_then(|gm| gm.seac).map(|s| (s.2, s.3));
-    subset_and_compare(font_bytes, &src, &list, &c.api, &c.list, &seac, rec).map(|_| ())
+    subset_and_compare(font_bytes, &src, &list, &c.api, &c.list, &CffHooks { seac: &seac, expect: &|_| None }, rec).map(|_| ())
+}
+
+// ------------------------------------------------------------------------------------------
+// fonts from the C18 generator (every operator form, hints/masks, nested subroutines at the
+// bias bands, CFF2 static and variable) and seac fonts built from the same pieces
+
+#[derive(Clone, Debug)]
+pub struct SeacSpec {
+    pub seed: u64,
+    pub hints: bool,
+    pub component_width: bool,
+    pub seac_width: bool,
+    /// 0: ISOAdobe (229 glyphs, glyph id = SID), 1: charset format 0, 2: format 1 (4 glyphs)
+    pub charset: u8,
+    pub free_forms: bool,
+}
+
+#[derive(Clone, Debug)]
+pub enum C18Font {
+    Gen(c18::Case),
+    Seac(SeacSpec),
+}
+
+#[derive(Clone, Debug)]
+pub struct C18Case {
+    pub font: C18Font,
+    pub list: ListSpec,
+    pub api: Api,
+    pub rewrap: bool,
+    /// (advance, lsb) seeds and numberOfHMetrics selector for the OTTO wrapper
+    pub metrics_seed: u32,
+}
+
+fn c18_case_strategy() -> impl Strategy<Value = c18::Case> {
+    let a = (
+        any::<u64>(),
+        prop_oneof![4 => Just(c18::Kind::NameKeyed), 3 => Just(c18::Kind::Cid), 3 => Just(c18::Kind::Cff2)],
+        prop_oneof![12 => 2usize..=8, 1 => 257usize..=300],
+        prop_oneof![3 => Just(0u8), 2 => Just(1u8), 1 => Just(2u8), 2 => Just(3u8)],
+        prop::bool::weighted(0.6),
+        prop::bool::weighted(0.5),
+        prop::bool::weighted(0.6),
+        prop_oneof![2 => Just(0usize), 3 => 1usize..=5],
+        prop_oneof![2 => Just(0usize), 3 => 1usize..=4],
+        prop::bool::weighted(0.08),
+    );
+    let b = (
+        prop_oneof![3 => 1usize..=8, 2 => 9usize..=30],
+        prop_oneof![80 => Just(0u8), 16 => 1u8..=4, 2 => 5u8..=8],
+        1usize..=3,
+        prop::bool::weighted(0.5),
+        1usize..=3,
+        any::<u8>(),
+        prop_oneof![3 => Just(1u8), 1 => 2u8..=4],
+        prop_oneof![3 => Just(0u8), 1 => 1u8..=3],
+    );
+    (a, b).prop_map(|((seed, kind, nglyphs, grid, hints, width, free_forms, nfrags, cuts, deep), (max_segs, pad, nfd, variable, axes, block_order, off_size, header_extra))| {
+        let big = nglyphs > 100;
+        c18::Case {
+            kind,
+            seed,
+            nglyphs,
+            grid,
+            hints,
+            width: width && kind != c18::Kind::Cff2,
+            free_forms,
+            nfrags,
+            cuts: if big { cuts.min(1) } else { cuts },
+            deep: deep && !big,
+            max_segs: if big { max_segs.min(5) } else { max_segs },
+            pad,
+            nfd: match kind {
+                c18::Kind::NameKeyed => 1,
+                c18::Kind::Cid => nfd.max(2),
+                c18::Kind::Cff2 => nfd,
+            },
+            variable: variable && kind == c18::Kind::Cff2,
+            axes,
+            block_order,
+            off_size,
+            header_extra,
+            via_sfnt: false,
+        }
+    })
+}
+
+fn c18_font_strategy() -> impl Strategy<Value = C18Font> {
+    prop_oneof![
+        9 => c18_case_strategy().prop_map(C18Font::Gen),
+        1 => (any::<u64>(), any::<bool>(), any::<bool>(), any::<bool>(), prop_oneof![1 => Just(0u8), 2 => Just(1u8), 2 => Just(2u8)], any::<bool>())
+            .prop_map(|(seed, hints, component_width, seac_width, charset, free_forms)| C18Font::Seac(SeacSpec { seed, hints, component_width, seac_width, charset, free_forms })),
+    ]
+}
+
+struct C18Built {
+    table: Vec<u8>,
+    cff2: bool,
+    /// model path per glyph
+    paths: Vec<Vec<Cmd>>,
+    seac: BTreeMap<u16, (u16, u16)>,
+    classes: Vec<String>,
+    /// per glyph: uses hintmask/cntrmask, calls subroutines
+    masks: Vec<bool>,
+    calls: Vec<bool>,
+}
+
+fn build_c18_seac(c: &SeacSpec) -> C18Built {
+    use crate::fontgen::cff::{build_cff, CffKind, CffModel, CharsetModel, PrivateModel};
+    use crate::fontgen::type2::{gen_glyph_plan, op, serialize, Dec, EncOpts, Encoder, Grid, NumForm, PathOpts, Tok, ONE};
+    use crate::refmodel::type2::standard_encoding_sid;
+    let mut dec = Dec::new(c.seed);
+    let codes: Vec<u8> = (0u16..256).map(|v| v as u8).filter(|v| standard_encoding_sid(*v) != 0).collect();
+    let bcode = codes[dec.below(codes.len())];
+    let mut acode = codes[dec.below(codes.len())];
+    if acode == bcode {
+        acode = if bcode == 65 { 194 } else { 65 };
+    }
+    let (bsid, asid) = (standard_encoding_sid(bcode), standard_encoding_sid(acode));
+    let po = PathOpts {
+        grid: Grid::SMALL,
+        max_contours: 2,
+        max_segs: 6,
+        scale: 300,
+        long_runs: false,
+    };
+    let mut comp = |dec: &mut Dec| {
+        let plan = gen_glyph_plan(dec, &po, &[], &|_| false);
+        let eo = EncOpts {
+            cff2: false,
+            free_number_forms: c.free_forms,
+            hints: c.hints,
+            width: if c.component_width { Some(dec.range(1, 1000) * ONE) } else { None },
+            regions: 0,
+            vsindex: None,
+            blend_permille: 0,
+            delta_scale: 0,
+            inexact: false,
+        };
+        let mut e = Encoder::new(&eo);
+        e.glyph(dec, &plan, &[]);
+        (serialize(&e.toks, &|_, _| 0), plan.model(&[]).commands(None), e.stats.masks > 0)
+    };
+    let (bcs, bpath, bmask) = comp(&mut dec);
+    let (acs, apath, amask) = comp(&mut dec);
+    let adx = dec.range(-500, 500);
+    let ady = dec.range(-500, 500);
+    let num = |v: i32| Tok::Num {
+        v: v * ONE,
+        form: NumForm::Short,
+        comp: None,
+        var: None,
+        blendable: false,
+    };
+    let mut toks = Vec::new();
+    if c.seac_width {
+        toks.push(num(dec.range(1, 1000)));
+    }
+    toks.extend([num(adx), num(ady), num(bcode as i32), num(acode as i32), Tok::Op(op::ENDCHAR)]);
+    let seac_cs = serialize(&toks, &|_, _| 0);
+    let endchar = vec![op::ENDCHAR as u8];
+    let mut seac_path = bpath.clone();
+    seac_path.extend(apath.iter().map(|c| match c {
+        Cmd::Move(x, y) => Cmd::Move(x + adx as f64, y + ady as f64),
+        Cmd::Line(x, y) => Cmd::Line(x + adx as f64, y + ady as f64),
+        Cmd::Curve(a, b, c2, d, e, f) => Cmd::Curve(a + adx as f64, b + ady as f64, c2 + adx as f64, d + ady as f64, e + adx as f64, f + ady as f64),
+        Cmd::Close => Cmd::Close,
+    }));
+    let (charstrings, charset, ids) = if c.charset == 0 {
+        let mut cs = vec![endchar.clone(); 229];
+        cs[bsid as usize] = bcs;
+        cs[asid as usize] = acs;
+        let g = (1..229u16).find(|g| *g != bsid && *g != asid).unwrap();
+        cs[g as usize] = seac_cs;
+        (cs, CharsetModel::IsoAdobe, (g, bsid, asid))
+    } else {
+        let cs = vec![endchar.clone(), acs, seac_cs, bcs];
+        let sids = vec![asid, 200, bsid];
+        (cs, if c.charset == 1 { CharsetModel::Format0(sids) } else { CharsetModel::Format1(sids) }, (2u16, 3u16, 1u16))
+    };
+    let n = charstrings.len();
+    let mut m = CffModel::simple(charstrings);
+    m.charset = charset;
+    m.kind = CffKind::NameKeyed {
+        private: PrivateModel {
+            nominal_width_x: Some(500),
+            default_width_x: Some(400),
+            ..Default::default()
+        },
+    };
+    let (sg, bg, ag) = ids;
+    let mut paths = vec![Vec::new(); n];
+    paths[bg as usize] = bpath;
+    paths[ag as usize] = apath;
+    paths[sg as usize] = seac_path;
+    let mut masks = vec![false; n];
+    masks[bg as usize] = bmask;
+    masks[ag as usize] = amask;
+    masks[sg as usize] = bmask || amask;
+    let mut seac = BTreeMap::new();
+    seac.insert(sg, (bg, ag));
+    let mut classes = vec!["c18gen:seac-font".to_string()];
+    if c.component_width {
+        classes.push("c18gen:seac-components-with-width".into());
+    }
+    C18Built {
+        table: build_cff(&m),
+        cff2: false,
+        paths,
+        seac,
+        classes,
+        masks,
+        calls: vec![false; n],
+    }
+}
+
+fn build_c18(f: &C18Font) -> C18Built {
+    match f {
+        C18Font::Seac(s) => build_c18_seac(s),
+        C18Font::Gen(c) => {
+            let b = c18::build(c);
+            let mut classes: Vec<String> = b.classes.iter().map(|c| format!("c18gen:{}", c)).collect();
+            classes.push(
+                match (c.kind, c.variable) {
+                    (c18::Kind::NameKeyed, _) => "c18gen:name-keyed",
+                    (c18::Kind::Cid, _) => "c18gen:cid-keyed",
+                    (c18::Kind::Cff2, false) => "c18gen:cff2-static",
+                    (c18::Kind::Cff2, true) => "c18gen:cff2-variable",
+                }
+                .to_string(),
+            );
+            C18Built {
+                cff2: c.kind == c18::Kind::Cff2,
+                paths: {
+                    // default location of a variable font: regions whose peaks are all zero still
+                    // contribute, so the scalars at the origin are evaluated, not assumed to be 0
+                    let vs = if c.variable { T2Font::parse_cff2(&b.table).ok().and_then(|t| t.vstore) } else { None };
+                    b.glyphs
+                        .iter()
+                        .map(|g| match &vs {
+                            Some(v) => {
+                                let sc = v.scalars(g.vsindex, &vec![0.0; v.axis_count]).expect("vsindex of the model is in range");
+                                g.model.commands(Some(&sc))
+                            }
+                            None => g.model.commands(None),
+                        })
+                        .collect()
+                },
+                seac: BTreeMap::new(),
+                classes,
+                masks: b.glyphs.iter().map(|g| g.stats.masks > 0).collect(),
+                calls: b.glyphs.iter().map(|g| g.depth > 0).collect(),
+                table: b.table,
+            }
+        }
+    }
+}
+
+fn check_generated_c18(c: &C18Case, rec: &mut Rec) -> CaseResult {
+    use crate::fontgen::basic;
+    let b = build_c18(&c.font);
+    let n = b.paths.len() as u16;
+    // metrics of the wrapper: varied advances / bearings, numberOfHMetrics sometimes < numGlyphs
+    let mut x = c.metrics_seed;
+    let mut next = || {
+        x = x.wrapping_mul(1_664_525).wrapping_add(1_013_904_223);
+        x >> 8
+    };
+    let metrics: Vec<(u16, i16)> = (0..n).map(|_| ((next() % 1400) as u16, (next() % 400) as i16 - 200)).collect();
+    let nhm = match c.metrics_seed % 4 {
+        0 => 1,
+        1 => n.saturating_sub(1).max(1),
+        _ => n,
+    };
+    let adv_max = metrics.iter().map(|m| m.0).max().unwrap_or(0);
+    let extra = [(*b"hmtx", basic::hmtx(&metrics, nhm)), (*b"hhea", basic::hhea(800, -200, adv_max, nhm))];
+    let otf = crate::fontgen::cff::build_otf(b.table.clone(), b.cff2, n, &extra);
+    let src = analyse("generated-c18", &otf).expect("generated C18 font must be readable by the harness's own readers");
+    // self-check: the independent interpreter reads the model back from the source bytes
+    let t2 = if b.cff2 { T2Font::parse_cff2(&src.cff) } else { T2Font::parse_cff(&src.cff) }.expect("generated table must parse");
+    let zeros: Option<Vec<f64>> = t2.vstore.as_ref().map(|v| vec![0.0; v.axis_count]);
+    for g in 0..n {
+        match t2.outline(g as usize, zeros.as_deref(), &Deviations::default()) {
+            Ok(p) => assert!(diff_commands(&p, &b.paths[g as usize], 1e-6).is_none(), "generated glyph {} does not read back as the model path", g),
+            Err(e) => panic!("generated glyph {} is not interpretable: {}", g, e),
+        }
+    }
+    let list = build_list(src.num_glyphs, &[], &[], &c.list);
+    let wrapped;
+    let font_bytes: &[u8] = if c.rewrap {
+        wrapped = woff1_wrap(&otf).expect("woff wrapper");
+        &wrapped
+    } else {
+        &otf
+    };
+    rec.class_if(c.rewrap, "container:rewrapped-by-fontgen");
+    rec.artefact("font", font_bytes);
+    rec.artefact("glyph-ids", format!("{:?}", list).as_bytes());
+    rec.hash_bytes(&otf);
+    rec.hash_bytes(format!("{:?}{:?}{}", c.api, list, c.rewrap).as_bytes());
+    rec.sample(|| format!("c18 font {} glyphs cff2={} classes={:?} api={:?} list={}", n, b.cff2, b.classes, c.api, truncate(&format!("{:?}", list), 160)));
+    for cl in b.classes.iter().take(12) {
+        rec.class(cl);
+    }
+    rec.class_if(list.iter().any(|g| b.masks[*g as usize]), "c18gen:retained-glyph-with-hintmask");
+    rec.class_if(list.iter().any(|g| b.calls[*g as usize]), "c18gen:retained-glyph-calls-subrs");
+    rec.class_if(list.iter().any(|g| b.seac.contains_key(g)), "c18gen:seac-glyph-retained");
+    let seac = |g: u16| b.seac.get(&g).copied();
+    let expect = |g: u16| b.paths.get(g as usize).cloned();
+    subset_and_compare(font_bytes, &src, &list, &c.api, &c.list, &CffHooks { seac: &seac, expect: &expect }, rec).map(|_| ())
 }
 
 // ------------------------------------------------------------------------------------------
@@ -1371,7 +1910,8 @@ impl Property for C07 {
         "cases are (font, glyph id list, API option) triples: fonts are the fixture fonts under tests/fonts (TrueType, CFF name-keyed and CID-keyed, CFF2; \
          as sfnt, as WOFF/WOFF2 fixtures and re-wrapped as WOFF by the harness) and generated TrueType fonts (nested composites to depth 4, shared components, \
          numberOfHMetrics < numGlyphs) and generated CFF fonts (name-keyed and CID-keyed with 1-3 Font DICTs, global/local subroutine INDEXes sized around the \
-         bias edges 1240 and 33900, nested subroutine calls, seac glyphs); lists are [0] ++ distinct ids of size 1-12 mostly, sometimes 250-300 and ~600, ascending/shuffled/descending, biased to \
+         bias edges 1240 and 33900, nested subroutine calls, seac glyphs) and fonts of the C18 generator (name-keyed, CID-keyed, CFF2 static/variable: every Type 2 operator form and \
+         number encoding, stem hints with hintmask/cntrmask, subroutines nested to depth 10 at every bias band, seac with hinted components) wrapped as OTTO; lists are [0] ++ distinct ids of size 1-12 mostly, sometimes 250-300 and ~600, ascending/shuffled/descending, biased to \
          composite parents or to components. A case is non-trivial when the subset succeeded, at least 2 glyphs were retained and at least one retained glyph \
          has an outline; distinct = distinct (font, list, API option, container)."
             .into()
@@ -1381,6 +1921,7 @@ impl Property for C07 {
             "TrueType outputs and bare-sfnt sources are read only by the harness's own sfnt/glyf/loca/hmtx readers (cross-checked against allsorts' glyf parser on every fixture glyph in section reader-crosscheck)".into(),
             "CFF and CFF2 outlines are compared through allsorts' own charstring visitor on both the source and the subset (its Type 2 semantics are C18's subject)".into(),
             "for WOFF/WOFF2 fixture sources the 'source font' is the set of tables the provider hands to the subsetter (container decoding is C10/C11's subject); sources re-wrapped as WOFF by the harness are compared with the original sfnt".into(),
+            "CFF/CFF2->CFF subsets are additionally compared through the independent Type 2 interpreter (refmodel::type2) on the bytes of both fonts, and for C18-generated fonts with the model path (forward construction); variable CFF2 sources are converted at the default location (allsorts refuses blended charstrings: counted as err:*)".into(),
             "generated CFF fonts are accepted as faithful because allsorts' visitor draws exactly the model path on the source (class gencff:source-path=model, measured) and the independent width reader returns the model widths (asserted)".into(),
             "the order of the appended component glyphs is not asserted (only that they are exactly the composite closure, each once, after the requested glyphs)".into(),
             "an Err from the subsetter is outside the statement ('a successful subset') and only counted".into(),
@@ -1408,6 +1949,14 @@ impl Property for C07 {
             n,
             (cff_model(), list_strategy(false), api_strategy(), prop::bool::weighted(0.1)).prop_map(|(model, list, api, rewrap)| GenCffCase { model, list, api, rewrap }),
             |c, rec| check_generated_cff(c, rec),
+        );
+        let n = ctx.cases(12_000, 200_000);
+        ctx.section(
+            "generated-c18",
+            n,
+            (c18_font_strategy(), list_strategy(false), api_strategy(), prop::bool::weighted(0.05), any::<u32>())
+                .prop_map(|(font, list, api, rewrap, metrics_seed)| C18Case { font, list, api, rewrap, metrics_seed }),
+            |c, rec| check_generated_c18(c, rec),
         );
         let n = catalogue().len() as u64;
         ctx.enumerate("reader-crosscheck", n, false, |i, rec| crosscheck_reader(i, rec));
